@@ -33,22 +33,22 @@ import (
 // ---------------------------------------------------------------- replayable input
 
 type Name struct {
-	CN      string     `json:"cn,omitempty"`
-	Serial  string     `json:"serial,omitempty"`
-	C       []string   `json:"c,omitempty"`
-	O       []string   `json:"o,omitempty"`
-	OU      []string   `json:"ou,omitempty"`
-	L       []string   `json:"l,omitempty"`
-	ST      []string   `json:"st,omitempty"`
-	Street  []string   `json:"street,omitempty"`
-	Postal  []string   `json:"postal,omitempty"`
-	DC      []string   `json:"dc,omitempty"`
-	Email   []string   `json:"email,omitempty"`
-	OrgID   []string   `json:"orgid,omitempty"`
-	JL      []string   `json:"jl,omitempty"`
-	JST     []string   `json:"jst,omitempty"`
-	JC      []string   `json:"jc,omitempty"`
-	Extra   []ExtraATV `json:"extra,omitempty"`
+	CN     string     `json:"cn,omitempty"`
+	Serial string     `json:"serial,omitempty"`
+	C      []string   `json:"c,omitempty"`
+	O      []string   `json:"o,omitempty"`
+	OU     []string   `json:"ou,omitempty"`
+	L      []string   `json:"l,omitempty"`
+	ST     []string   `json:"st,omitempty"`
+	Street []string   `json:"street,omitempty"`
+	Postal []string   `json:"postal,omitempty"`
+	DC     []string   `json:"dc,omitempty"`
+	Email  []string   `json:"email,omitempty"`
+	OrgID  []string   `json:"orgid,omitempty"`
+	JL     []string   `json:"jl,omitempty"`
+	JST    []string   `json:"jst,omitempty"`
+	JC     []string   `json:"jc,omitempty"`
+	Extra  []ExtraATV `json:"extra,omitempty"`
 }
 type ExtraATV struct {
 	OID   []int  `json:"oid"`
@@ -98,14 +98,14 @@ type Tmpl struct {
 	Extra      []Ext    `json:"extra,omitempty"`
 }
 type Input struct {
-	T         Tmpl  `json:"t"`
-	SubjKey   int   `json:"subjkey"`
-	SignKey   int   `json:"signkey"`
-	Parent    *Tmpl `json:"parent,omitempty"` // nil = self-signed with SubjKey
-	InDomain  bool  `json:"indomain"`         // the property's domain: issuance must succeed and round-trip
-	Why       string `json:"why,omitempty"`   // for out-of-domain templates: what is deliberately wrong
-	OracleOnly bool  `json:"-"`               // evaluate the property on the implementation only (no model case)
-	Override  string `json:"override,omitempty"` // an extra extension carries this generated extension's OID: that field group follows the extra extension
+	T          Tmpl   `json:"t"`
+	SubjKey    int    `json:"subjkey"`
+	SignKey    int    `json:"signkey"`
+	Parent     *Tmpl  `json:"parent,omitempty"`   // nil = self-signed with SubjKey
+	InDomain   bool   `json:"indomain"`           // the property's domain: issuance must succeed and round-trip
+	Why        string `json:"why,omitempty"`      // for out-of-domain templates: what is deliberately wrong
+	OracleOnly bool   `json:"-"`                  // evaluate the property on the implementation only (no model case)
+	Override   string `json:"override,omitempty"` // an extra extension carries this generated extension's OID: that field group follows the extra extension
 }
 
 // ---------------------------------------------------------------- keys
@@ -848,7 +848,9 @@ func classKey(in Input) string {
 	add(len(t.OCSP)+len(t.Issuing) > 0, fmt.Sprintf("aia%d+%d", len(t.OCSP), len(t.Issuing)))
 	add(len(t.DNS)+len(t.Emails)+len(t.IPs) > 0, fmt.Sprintf("san%d+%d+%d", len(t.DNS), len(t.Emails), len(t.IPs)))
 	add(len(t.Policies) > 0, fmt.Sprintf("pol%d", len(t.Policies)))
-	nc := func(s NCSet) string { return fmt.Sprintf("%d.%d.%d.%d", len(s.Emails), len(s.DNS), len(s.Dirs), len(s.IPs)) }
+	nc := func(s NCSet) string {
+		return fmt.Sprintf("%d.%d.%d.%d", len(s.Emails), len(s.DNS), len(s.Dirs), len(s.IPs))
+	}
 	add(nc(t.Perm)+nc(t.Excl) != "0.0.0.00.0.0.0", "nc"+nc(t.Perm)+"/"+nc(t.Excl))
 	add(len(t.CRLDP) > 0, fmt.Sprintf("dp%d", len(t.CRLDP)))
 	add(len(t.Extra) > 0, fmt.Sprintf("extra%d", len(t.Extra)))
